@@ -167,7 +167,7 @@ lemma(
     "xr.roundtrip_rotated",
     ["C09"],
     inputs=dict(ny=Int(ge=1), nx=Int(ge=1), A=AFFINE()),
-    requires=[lambda A: Or(Abs(A.b) >= 1e-5, Abs(A.d) >= 1e-5)],
+    requires=[lambda A: And(A.a * A.e - A.b * A.d != 0, Or(Abs(A.b) >= 1e-5, Abs(A.d) >= 1e-5))],
     body=_lemma_roundtrip_rotated,
     unstub=[f"{XR}:xr_coords", f"{MATH}:affine_from_axis", f"{MATH}:data_resolution_and_offset", f"{MATH}:is_affine_st"],
     note="rotated / sheared grids: pixel-space labels k + 1/2 (float32: exact below 2**23, assumed) and the transform in the encoding",
